@@ -8,7 +8,7 @@ def sh(cmd, cwd="/verif", timeout=3000):
 src = sys.argv[1] if len(sys.argv) > 1 else "/tmp/mut/out"
 only = sys.argv[2:] 
 res = {}
-out_path = "/tmp/mut/results.json"
+out_path = os.environ.get("MUT_RESULTS", "/tmp/mut/results.json")
 if os.path.exists(out_path):
     res = json.load(open(out_path))
 for d in sorted(glob.glob(src + "/C*/*/patch.diff")):
